@@ -629,7 +629,9 @@ def correspond(ctx):
         "oracle_failures_by_key": per_key,
         "model_mismatches": n_mismatch,
         "traces_validated_against_impl": 2 * len(cases) + len(lit_in),
-        "unproved": ["floating point folding (`/`, `^`, float operands): correspondence only, no theorem",
+        "unproved": ["fold_agrees (Proofs.fold_agrees_at) is proved for + - * (all types, all values); for // % /// %%% | ~ & << >> >>> the same statement is evaluated by the oracle on every case, not proved (proved pieces: fold exactness for // %, run-time modularity of every operator, comparisons)",
+                     "still false on the repaired tree: uint64/usize shift counts >= 2^63 at run time (C02_rt_shift_uint64_count_refuted); float32 operations folded in double precision (known findings float:*)",
+                     "floating point folding (`/`, `^`, float operands): correspondence only, no theorem",
                      "analyzer.lua propagation of attr.value / comptime variables: end-to-end probes only"],
     }
 
